@@ -29,7 +29,7 @@ BUDGET = {"quick": 10000, "thorough": 300000}
 def _cases(draw):
     prof = dict(gen.PROFILES["broad"], p_group_logic=0.5, p_extra_cols=0.5, p_params=0.6, p_multilang=0.6, p_media=0.2,
                 settings="some", p_entities=0.2, p_trigger=0.15, p_choice_media=0.2, p_or_other=0.15, p_choice_filter=0.3,
-                extra_col_names=["parent", "e0", "kind", "extra_data"], p_hint=0.4, p_osm=0.06, odd_list_names=True, max_lists=4, p_search=0.08)
+                extra_col_names=["parent", "e0", "kind", "extra_data"], p_hint=0.4, p_osm=0.06, odd_list_names=True, max_lists=4, p_search=0.08, p_add_none_option=0.06)
     g = gen.G(draw, prof)
     form = gen.build_form(draw, prof, g=g)
     # the type dictionary's legacy entries (some carry a default hint or bind of their own)
@@ -40,6 +40,8 @@ def _cases(draw):
                 del n["c"][k]
             if g.p("_", 0.5) and not any(k.split("::")[0] == "hint" for k in n["c"]):
                 n["c"]["hint"] = g.text("H")       # the author's own hint on a type that has a default hint
+    if g.p("_", 0.08) and not any(n["k"] == "r" for n, _ in model.walk(form["nodes"])):
+        form.setdefault("settings", {})["flat"] = "yes"      # the legacy flat setting annotates every group in the JSON form
     return {"form": form}
 
 
@@ -134,6 +136,15 @@ def evaluate(case) -> Outcome:
                     out.fail("C16.dump-after-to-xml", k, d)
             except Exception as e:  # noqa: BLE001
                 out.fail("C16.dump-after-to-xml", "raises:" + crash_sig(e), repr(e))
+            # the survey's own text dumps: to_json() and json_dump(path) are the documented writers
+            out.checked("C16.to-json-text")
+            try:
+                x7 = create_survey_element_from_json(fresh.to_json()).to_xml(validate=False, pretty_print=False)
+                if x7 != direct:
+                    k, d = diff_kind(direct, x7)
+                    out.fail("C16.to-json-text", k, d)
+            except Exception as e:  # noqa: BLE001
+                out.fail("C16.to-json-text", "raises:" + crash_sig(e), repr(e))
             # (3) dump - load - dump stability
             out.checked("C16.stable")
             s4 = create_survey_element_from_dict(json.loads(t1))
